@@ -585,3 +585,68 @@ def r10(R):
                         name, ast.unparse(c.func)),
                     key='data read through the database storage')
     R.require(n >= 1, 'Blob no longer talks to its connection')
+
+
+# ----------------------------------------------------------------- C12.R11
+@rule('C12.R11', 'while the objects of a commit are stored, an oid is taken '
+      'back from the list of modified oids only in an iteration that added '
+      'it (a new object adds nothing)', props=['C11', 'C13'],
+      min_instances=1)
+def r11(R):
+    conn = R.prog.cls(CONN)
+    f = R.method(conn, '_store_objects_of')
+    g, b, F = R.cfg(f, conn, max_depth=0)
+    heads = [n for n in g.reachable() if g.nodes[n].kind == 'for']
+    R.require(heads, '_store_objects_of no longer loops over the writer')
+    pops = [0]
+
+    # boolean locals set to literals (a "this object is new" flag)
+    from ..flow import Flags
+    consts = {t.id for s_ in walk_local(f.node) if isinstance(s_, ast.Assign)
+              and isinstance(s_.value, ast.Constant) and isinstance(
+                  s_.value.value, bool)
+              for t in s_.targets if isinstance(t, ast.Name)}
+    flags = Flags(F, lambda e, fr: e.id if isinstance(e, ast.Name) and
+                  e.id in consts else None)
+
+    def edge(node, st, lab, tgt):
+        added, fl = st
+        if node.kind == 'for':
+            return (False, frozenset())   # a new iteration: nothing added
+        fl = flags.learn(node, fl, lab)
+        if fl is PRUNE:
+            return PRUNE
+        if lab in ('e', 'eb'):
+            return (added, fl)
+        fl = flags.assign(node, fl, lab)
+        for op in F.ops(node):
+            if op.kind == 'call' and path_is(
+                    op.path, ('self', '_modified', 'append')):
+                added = True
+        return (added, fl)
+
+    def at(node, st):
+        for op in F.ops(node):
+            if op.kind == 'call' and path_is(
+                    op.path, ('self', '_modified', 'pop')):
+                if not st[0]:
+                    return Violation(
+                        'Connection._store_objects_of takes an oid back '
+                        'from self._modified on a path on which this '
+                        'iteration added none (a blob that is new in the '
+                        'transaction and was stored by a savepoint, '
+                        'registered again without new data): the oid of '
+                        'ANOTHER object is dropped, or the commit dies with '
+                        'IndexError: pop from empty list')
+        return st
+
+    for nid in g.reachable():
+        for op in F.ops(g.nodes[nid]):
+            if op.kind == 'call' and path_is(
+                    op.path, ('self', '_modified', 'pop')):
+                pops[0] += 1
+    R.instance('Connection._store_objects_of', pops=pops[0])
+    vs, stats = explore(g, (False, frozenset()), at=at, edge=edge)
+    R.count(stats)
+    for v in vs:
+        R.violation(v.node, v.message, g, v.path)
